@@ -441,3 +441,26 @@ def c03OK (t : Tables) (w : Wrapper) : Bool :=
   (w.frequency == some t.frequency)
 
 end IRModel.Wrap
+
+/-! ### C08 at wrapper level: `decode()` raises library errors only, in every state and on every input -/
+namespace IRModel.Wrap
+open IRModel IRModel.Py IRModel.Proto
+
+def leafOK (t : Tables) : Outcome → Bool
+  | .raise cls => (errOfName cls).isLibrary
+  | .ret fs _ => retIdentity t fs
+  | .retLast => true
+  | .retOther => false
+
+def leavesOK (t : Tables) : DTree → Bool
+  | .leaf _ out => leafOK t out
+  | .ite _ a b => leavesOK t a && leavesOK t b
+
+def c08OK (t : Tables) (w : Wrapper) : Bool :=
+  let F := widthsOf t
+  w.decTraced && t.decodeOverridden &&
+  t.params.all (fun prm => t.params.find? (fun q => q.1 == prm.1) == some prm && decide (prm.2.1 ≤ prm.2.2)) &&
+  treeSafe F [] w.treeNone && noLastTree w.treeNone && treeSafe F F w.treeSome &&
+  leavesOK t w.treeNone && leavesOK t w.treeSome
+
+end IRModel.Wrap
